@@ -6,6 +6,7 @@ CONSTANTS
   MaxLen = 3
   MaxTraffic = 2
   Reuse = "statement"
+  TripAge = 1
   Paths = {"whole", "wholeOther", "res"}
   Norm <- MCNorm
   Defaulting = {}
